@@ -225,17 +225,41 @@ def run_area(spec):
             except Exception as e:
                 al[name] = err(e)
     out["aliases"] = al
-    # ---- histories: sequences of lon/lat accessor calls on ONE fresh object each
+    # ---- histories: sequences of accessor calls on ONE fresh object each; a step flagged "mutate" is followed by the
+    # caller overwriting, in place, the numpy arrays it was just handed (they are the caller's arrays)
+    def scribble(res):
+        done = False
+        for arr in res:
+            if isinstance(arr, np.ndarray) and arr.size and arr.flags.writeable:
+                try:
+                    arr *= 0.001
+                    arr -= 7.0
+                    done = True
+                except Exception:
+                    pass
+        return done
+
     hs = []
     for hist in spec.get("histories", []):
         obj = AreaDefinition("c01", "c01", "c01", spec["crs"], spec["w"], spec["h"], tuple(spec["extent"]))
         steps = []
         for op in hist:
             try:
+                res = None
                 if op["op"] == "get_lonlats":
                     dt = np.dtype(op["dtype"]) if op.get("dtype") else None
-                    steps.append({"ll": pair_out(obj.get_lonlats(data_slice=to_data_slice(op.get("slice")), dtype=dt,
-                                                                 chunks=to_chunks(op.get("chunks")), cache=bool(op.get("cache"))))})
+                    res = obj.get_lonlats(data_slice=to_data_slice(op.get("slice")), dtype=dt,
+                                          chunks=to_chunks(op.get("chunks")), cache=bool(op.get("cache")))
+                    steps.append({"ll": pair_out(res)})
+                elif op["op"] == "get_proj_coords":
+                    res = obj.get_proj_coords(data_slice=to_data_slice(op.get("slice")), chunks=to_chunks(op.get("chunks")))
+                    steps.append({"xy": pair_out(res)})
+                elif op["op"] == "get_proj_vectors":
+                    res = obj.get_proj_vectors()
+                    steps.append({"vec": pair_out(res)})
+                elif op["op"] == "projection_coords":
+                    res = (obj.projection_x_coords, obj.projection_y_coords)
+                    steps.append({"vec": pair_out(res)})
                 elif op["op"] == "get_lonlat":
                     r = obj.get_lonlat(op["row"], op["col"])
                     steps.append({"value": [float(r[0]), float(r[1])]})
@@ -244,10 +268,30 @@ def run_area(spec):
                     steps.append({"value": [float(r[0]), float(r[1])]})
                 else:
                     steps.append({"error": "unknown op"})
+                if op.get("mutate") and res is not None:
+                    steps[-1]["mutated"] = scribble(res)
             except Exception as e:
                 steps.append(err(e))
         hs.append(steps)
     out["histories"] = hs
+    # ---- several lazy results evaluated in ONE dask.compute: this area and a twin of equal shape and pixel size
+    jt = spec.get("joint")
+    if jt:
+        try:
+            twin = AreaDefinition("c01t", "c01t", "c01t", spec["crs"], spec["w"], spec["h"], tuple(jt["twin_extent"]))
+            ch = to_chunks(jt["chunks"])
+            ax, ay = area.get_proj_coords(chunks=ch)
+            tx, ty = twin.get_proj_coords(chunks=ch)
+            alo, ala = area.get_lonlats(chunks=ch)
+            tlo, tla = twin.get_lonlats(chunks=ch)
+            nch = [list(map(int, c)) for c in ax.chunks]
+            got = dask.compute(ax, ay, tx, ty, alo, ala, tlo, tla, tx - ax, tlo - alo)
+            out["joint"] = {"norm_chunks": nch, "twin_pixel_size": [float(twin.pixel_size_x), float(twin.pixel_size_y)],
+                            "area_xy": pair_out(got[0:2]), "twin_xy": pair_out(got[2:4]),
+                            "area_ll": pair_out(got[4:6]), "twin_ll": pair_out(got[6:8]),
+                            "diff_x": arr_out(got[8]), "diff_lon": arr_out(got[9])}
+        except Exception as e:
+            out["joint"] = err(e)
     return out
 
 
